@@ -23,14 +23,24 @@
 EXTENDS ManifTrace
 
 SAT == 2000000000
-U4(ev) == FMulInt(UOf(ev), 4)                 \* 4u of the scalar of the event
+\* Agreement of two runs of the SAME closed forms in the same precision (Jet primal vs double, functor vs
+\* member function): 2^6 u per unit of scale.  Not bit-identity and not 4u, by analysis of the unchanged
+\* tree: (i) Eigen evaluates quaternion products / norms of double with vectorised kernels that associate
+\* differently from the generic kernels used for a Jet scalar (a few u); (ii) ceres::Jet divides as
+\* f*(1/g) (1.5u per division); (iii) at the small-angle switch-over theta^2 = eps = 100 eps_mach the two
+\* runs may take different branches because theta^2 itself differs by an ulp -- the branches differ by
+\* the library's own approximation error eps/8 ~ 28u (measured: 25u in SO3 lplus at the "at_sw" cell,
+\* <= 10u everywhere else).  A dropped term or a derivative-stripping cast shows up at >= 1e-10.
+UAgree(ev) == FMulInt(UOf(ev), 64)
 
 FieldMax(ev, f) == IF Has(ev, f) THEN VMaxAbs(DV(ev[f])) ELSE Z
 \* magnitude scale of an event: 1 or the largest coefficient among operands and results
+\* (SGal3: position entries are sums of products velocity x time, so the bound is the square)
 ScaleOf(ev, fields) ==
   LET RECURSIVE Acc(_)
       Acc(k) == IF k > Len(fields) THEN O ELSE FMax(FieldMax(ev, fields[k]), Acc(k + 1))
-  IN Acc(1)
+      mx == Acc(1)
+  IN IF ev.g.k = "SGal3" THEN FMul(mx, mx) ELSE mx
 ConstTol(n, tol) == [i \in 1..n |-> tol]
 
 \* linear (length / velocity / time) scale of an event for the unit-aware Jacobian tolerance
@@ -51,7 +61,7 @@ JetCmpItems(ev) ==
   LET g == ev.g
       prim == DV(ev.prim)   dbl == DV(ev.dbl)
       sc == ScaleOf(ev, << "a", "b", "t", "pt", "prim", "dbl" >>)
-      tolv == ConstTol(Len(dbl), FAdd(FMul(U4(ev), sc), FloorOf(ev)))
+      tolv == ConstTol(Len(dbl), FAdd(FMul(UAgree(ev), sc), FloorOf(ev)))
       lres == IF ev.res = "r" THEN LinCoeffMax(g, dbl) ELSE IF ev.res = "rt" THEN LinMax(g, dbl) ELSE VMaxAbs(dbl)
       LL == FMax(LinOfEv(ev), lres)
       UT == UnitT(g, LL)
@@ -76,7 +86,7 @@ FunctorItems(ev) ==
   LET g == ev.g   n == DoF(g)
       out == DV(ev.out)   ref == DV(ev.ref)
       sc == ScaleOf(ev, << "a", "b", "t", "m", "rt", "out", "ref" >>)
-      tolv == ConstTol(Len(ref), FAdd(FMul(U4(ev), sc), FloorOf(ev)))
+      tolv == ConstTol(Len(ref), FAdd(FMul(UAgree(ev), sc), FloorOf(ev)))
       wpv == ConstTol(Len(ref), FAdd(FMul(WPOf(ev), sc), FloorOf(ev)))
       LL == LinOfEv(ev)
       UT == UnitT(g, LL)
@@ -86,14 +96,19 @@ FunctorItems(ev) ==
                  Item("out", IF Len(out) = Len(ref) THEN VRatio(out, ref, tolv) ELSE SAT),
                  Item("guards", IF ev.gb = ev.ga THEN 0 ELSE SAT),
                  Item("inputs_const", IF ev.inb = ev.ina THEN 0 ELSE SAT) >>
-      dual == IF ~Has(ev, "dual") THEN << >>
+      \* the gradient of w|tau| is the DIRECTION of tau: ill-conditioned (u*scale/|tau|) for a tiny residual,
+      \* where the re-normalising cast<T>() of the target inside the functor already turns it; judged from
+      \* |tau| >= 2^-20 * scale on
+      tinyRes == ev.name = "Objective" /\ FLt(VMaxAbs(DV(ev.rt)), FMul(FPow2(-20), sc))
+      dual == IF ~Has(ev, "dual") \/ tinyRes THEN << >>
               ELSE IF ~(FinM(ev.dual) /\ FinM(ev.dual_ref)) THEN << Item("dual", SAT) >>
               ELSE LET colU == IF Len(ev.dual[1]) = n THEN UT ELSE UT \o UT
                    IN << JItem(ev, "dual", DM(ev.dual), DM(ev.dual_ref), rowU, colU) >>
-      tauZero == Has(ev, "rt") /\ VMaxAbs(DV(ev.rt)) = Z
+      \* w |tau| is not differentiable at tau = 0: a non-finite derivative is accepted only where the
+      \* residual computed by the functor itself is exactly zero
+      resZero == ev.name = "Objective" /\ out[1] = Z
       dfin == IF ~Has(ev, "dual_finite") THEN << >>
-              \* w |tau| is not differentiable at tau = 0: a non-finite derivative is accepted only there
-              ELSE << Item("dual_finite", IF ev.dual_finite = 1 \/ tauZero THEN 0 ELSE SAT) >>
+              ELSE << Item("dual_finite", IF ev.dual_finite = 1 \/ resZero THEN 0 ELSE SAT) >>
       formula ==
         IF ev.name = "Objective"
         THEN LET tau == DV(ev.rt)   w == D(ev.w[1])
